@@ -11,7 +11,7 @@ META = {
     "engine": "vm",
     "technique": "TLA+ spec PolicyLang in effects mode (short-circuit/branch semantics of Eval with a foreign-call log) explored with TLC; every program replayed through the real compiler and VM with a logging FFI module, outcome and call log compared with the spec's",
     "text": "TLC enumerates every production (&&, ||, optional-coalescing `or`, if, match with literal/binding/default arms, and all strict operators) with a panicking expression, a failing check or a logging foreign call in every operand/branch position (expression depth 1 exhaustive, statement forms exhaustive, deeper by seeded simulation). Eval evaluates only the taken operand/branch, so a skipped panic must not stop the program and a skipped foreign call must not appear in the log; the engine registers the FFI module `vt` (identity functions that log their arguments) and decides VIOLATION iff exit reason, value or the exact call log differ.",
-    "note": "Bounds: depth 1 exhaustive for root types int, bool (thorough: + option[int], struct P, struct Emp), statement depth 1 for int, simulation 120 (thorough 1500) derivations of depth <= 3; <= 8 argument tuples per program. Evidence counts programs in which at least one effect atom was statically present but skipped on some argument tuple (skipped_effect_programs). Trusted: as C22; the harness FFI module logs in call order.",
+    "note": "Bounds: depth 1 exhaustive for root types int, bool (thorough: + option[int], struct P, struct Emp), statement depth 1 for int, simulation 120 (thorough 3000) derivations of depth <= 3; <= 8 argument tuples per program. Evidence counts programs in which at least one effect atom was statically present but skipped on some argument tuple (skipped_effect_programs). Trusted: as C22; the harness FFI module logs in call order.",
 }
 
 
@@ -31,7 +31,7 @@ def run(ctx):
     _, progs2, _ = vm_util.generate(ctx, "MC_PolicyLang_fxstmt.cfg")
     vm_util.require_ops(ctx, progs2, ["ifs", "matchs", "check", "todo", "ffi"], "fxstmt")
     runs.append(("fxstmt", progs2))
-    _, progs3, _ = vm_util.generate(ctx, "MC_PolicyLang_fxsim.cfg", simulate=1500 if ctx.thorough else 120, depth=400)
+    _, progs3, _ = vm_util.generate(ctx, "MC_PolicyLang_fxsim.cfg", simulate=3000 if ctx.thorough else 120, depth=400)
     runs.append(("fxsim", progs3))
     allres = []
     skipped = 0
